@@ -27,7 +27,7 @@ func Run(c *hx.Ctx) error {
 	// hx.NewRng(s+1) is hx.NewRng(s) advanced by one step; scramble the seed so that consecutive
 	// seeds give unrelated streams
 	r := hx.NewRng(hx.NewRng(c.Seed).U64() ^ 0xC16)
-	c.Stats.Rule = "sequence in which a command failed, or a group was created after a duration change or a delete"
+	c.Stats.Rule = "sequence in which a command failed, a group was created after a duration change or a delete, or a measurement was created again after a purge"
 	depth := 4
 	if c.Tier == "thorough" {
 		depth = 5
@@ -61,9 +61,14 @@ type tracker struct {
 	reported    map[string]bool
 	failedSeen  bool
 	interesting bool
+	history     *metax.History // names / ids handed out so far (the history clauses of the oracle)
+	dropped     bool           // a DropMeasurement purged an entry
+	recreated   bool           // a measurement was created after a purge (the life cycle went round)
 }
 
-func newTracker(c *hx.Ctx) *tracker { return &tracker{c: c, reported: map[string]bool{}} }
+func newTracker(c *hx.Ctx) *tracker {
+	return &tracker{c: c, reported: map[string]bool{}, history: metax.NewHistory()}
+}
 
 func (t *tracker) clone() *tracker {
 	n := *t
@@ -72,6 +77,7 @@ func (t *tracker) clone() *tracker {
 	for k, v := range t.reported {
 		n.reported[k] = v
 	}
+	n.history = t.history.Clone()
 	return &n
 }
 
@@ -143,6 +149,23 @@ func (t *tracker) step(in *metax.Inst, cmd metax.Cmd) bool {
 				t.interesting = true
 			}
 		}
+	}
+	// history clauses: versioned names and ids are handed out at most once, version counters
+	// never go back (OG.C16.Issued)
+	dropsBefore := t.dropped
+	if res.OK && cmd.Kind == "DropMeasurement" && after.String() != before {
+		t.dropped = true
+	}
+	if res.OK && cmd.Kind == "CreateMeasurement" && dropsBefore && after.String() != before {
+		t.recreated = true
+		c.Count("lifecycle:create-after-purge")
+	}
+	for _, f := range t.history.Observe(in.Data(), cmd.Kind) {
+		if t.reported[f.Class] {
+			continue
+		}
+		t.reported[f.Class] = true
+		c.Violation(ln, f.Class, fmt.Sprintf("%s after %s", f.Desc, strings.Join(tail(t.hist, 14), " | ")))
 	}
 	v := metax.WFViolations(in.Data())
 	verdict := "ok"
@@ -251,11 +274,24 @@ func randomLog(c *hx.Ctx, r *hx.Rng, logLen int) {
 		pro = metax.Bootstrap(u)
 	}
 	n := len(pro) + 1 + r.Intn(logLen)
+	// structured sub-sequences: measurement life cycles spliced into the random commands
+	var script []metax.ScriptStep
+	scriptAt := -1
+	if r.Chance(45) {
+		script = metax.RandomLifeCycle(u, r).Steps
+		scriptAt = len(pro) + r.Intn(n-len(pro))
+		n += len(script)
+		c.Count("lifecycle:scripted-log")
+	}
 	for i := 0; i < n; i++ {
 		var cmd metax.Cmd
-		if i < len(pro) {
+		switch {
+		case i < len(pro):
 			cmd = pro[i]
-		} else {
+		case i >= scriptAt && len(script) > 0 && scriptAt >= 0 && r.Chance(75):
+			cmd = script[0](in.Data())
+			script = script[1:]
+		default:
 			cmd = u.Gen(kindsModelled)
 		}
 		if in.PickMatters(cmd) {
@@ -269,7 +305,7 @@ func randomLog(c *hx.Ctx, r *hx.Rng, logLen int) {
 			break // beyond 12 elements sort.Sort is no longer the insertion sort the model transcribes
 		}
 	}
-	c.Case(strings.Join(t.hist, "|"), t.failedSeen || t.interesting)
+	c.Case(strings.Join(t.hist, "|"), t.failedSeen || t.interesting || t.recreated)
 	if len(c.Stats.Samples) < 2 {
 		c.Sample(strings.Join(tail(t.hist, 6), " | "))
 	}
@@ -309,6 +345,10 @@ func alphabet() []metax.Cmd {
 		mk("CreateDataNode 10.0.0.2:8400 10.0.0.2:8401 -"),
 		mk("UpdateRetentionPolicy db0 autogen rp9 _ _ _ _ _ _ 0"),
 		mk("DropRetentionPolicy db0 autogen"),
+		// the delete life cycle of the prologue's measurement: mark, purge, create again
+		mk("MarkMeasurementDelete db0 autogen m0"),
+		mk("DropMeasurement db0 autogen m0_0000"),
+		mk("CreateMeasurement db0 autogen m0 hash:t0 0 f0:1:_"),
 	}
 }
 
@@ -337,7 +377,7 @@ func exhaustive(c *hx.Ctx, depth int) {
 	var dfs func(t *tracker, d int)
 	dfs = func(t *tracker, d int) {
 		if d == depth {
-			c.Case(strings.Join(t.hist, "|"), t.failedSeen || t.interesting)
+			c.Case(strings.Join(t.hist, "|"), t.failedSeen || t.interesting || t.recreated)
 			return
 		}
 		for _, a := range alpha {
